@@ -100,6 +100,32 @@ PROPS["C01"] = dict(
     assumptions=["the fixture contains no entry on which a test or action can fail"],
 )
 
+PROPS["C11"] = dict(
+    level_text="What makes a command line malformed is specified in TLA+: the operator grammar (FindExpr, shared with C01) and per-primary operand "
+               "classifiers (FindCli: numeric, -size, -type, -perm, -printf, -regextype, -exec shapes, file references, users, depths; each "
+               "valid / invalid / left open). TLC (a) feeds every token sequence up to L to the builder machine and compares its verdict with the "
+               "grammar, (b) enumerates every operand string up to K over per-primary alphabets of valid characters, near-misses and junk and "
+               "checks laws of the classifiers; every rejected sequence and every operand is replayed on the real find (destructive actions "
+               "-delete/-exec in the expression, sandbox snapshot, recorder log, stdout) - rejected means diagnostic, non-zero status and no effect at all; "
+               "random whole command lines with arbitrary operands on a hostile tree (unknown owners, fifo, socket, link loops, non-UTF-8 names) are run "
+               "as the real binary and validated by TLC: never a panic, abort or hang.",
+    level_note="Trusted: TLC; the harness's fixture construction, sandbox snapshot and panic detection (exit 101 / signal / 'panicked at' / 20 s timeout). "
+               "Exhaustive over all strings is impossible: the operand classes and alphabets in spec/mc/MC_Operand.tla name what is covered. Where "
+               "tradition is lenient or the property silent the classifier says 'unspec' and only 'no panic' is required.",
+    mc=[dict(module="mc/MC_Expr.tla", cfg=dict(quick="mc/MC_Expr_quick.cfg", thorough="mc/MC_Expr_thorough.cfg"), workers=8),
+        dict(module="mc/MC_Operand.tla", cfg=dict(quick="mc/MC_Operand_quick.cfg", thorough="mc/MC_Operand_thorough.cfg"), workers=4, vh="C11o")],
+    record=dict(quick=1200, thorough=30000), record_vh="C11o",
+    selftest=dict(quick=40, thorough=200),
+    trace=dict(module="trace/T_Cli.tla", cfg="trace/T_Cli.cfg"),
+    trace_chunk=1500,
+    rule="MC_Expr: every token sequence up to L (verdict of the builder machine = grammar); MC_Operand: every operand up to K over 8 primary kinds; "
+         "trace: random command lines of up to ~25 words with operands from valid / near-miss / junk pools, 1 in 5 structurally damaged, "
+         "on the hostile fixture, as the real binary.",
+    exhaustive_note="bounded-exhaustive over token sequences up to L and operand strings up to K",
+    assumptions=["a leading ',' or ')' is taken for a starting point by the operand scan and not judged",
+                 "operands the property leaves open (fractions, '++1', +MODE, lists for -type, unknown printf directives, regex syntax errors other than '[') are only required not to panic"],
+)
+
 _WALK_NOTE = ("Trusted: TLC; the harness's materialisation of tree values (mkdir/symlink) and the in-process call of find_main with captured "
               "output. Unreadable directories cannot be produced as root in-process and are exercised by C11's fixture only. Link targets are "
               "non-links or dangling (no link-to-link chains).")
